@@ -63,7 +63,7 @@ def _vacuum_redundant(gates):
     return gates[0][0] not in ACTIVE_FIRST
 
 
-def _jobs(tier):
+def _big_jobs(tier):
     """list of jobs {family, circuit, lat, modes}; `lat` names the lattice: spec (full tensor grid when
     5**p <= 125, else axis lines + diagonal), star (diagonal + generic base point + the points 0 and -1 on
     every axis through the base point), diag (diagonal + base point), point (generic base point)"""
@@ -81,7 +81,11 @@ def _jobs(tier):
                 add("tf_eager", c, "spec", ["tf_eager"])
                 add("tf_function", c, "spec" if (thorough and d < 3) else "star", ["tf_function"])
                 # TensorFlow's default tape.jacobian (pfor): symbolic upstream -> the `else` branches of the rules
-                add("tf_eager", c, "tri" if thorough else ("duo" if inp == "num" else "point"), ["tf_eager_pfor"])
+                if thorough:
+                    pfor_lat = "tri" if d < 3 else "point"
+                else:
+                    pfor_lat = "duo" if (inp == "num" and d == 1) else "point"
+                add("tf_eager", c, pfor_lat, ["tf_eager_pfor"])
                 add("jax", c, "spec", ["jax_jit", "jax_eager"])
     # ---- depth 2 on d <= 2: every sequence
     for d in (1, 2):
@@ -102,10 +106,11 @@ def _jobs(tier):
                     if inp == "num" and canon:
                         add("tf_eager", c, "point", ["tf_eager_pfor"])
                 else:
-                    add("tf_eager", c, "tri", ["tf_eager"])
+                    # d = 1 is cheap: star lattice (it contains the points with ONE parameter at 0 and the others generic)
+                    add("tf_eager", c, "star" if d == 1 else "tri", ["tf_eager"])
                     if inp == "num" and canon:
-                        add("tf_function", c, "point", ["tf_function"])
-                        add("jax", c, "diag", ["jax_jit"])  # JAX has no hand-written rules in this path
+                        add("tf_function", c, "star" if d == 1 else "point", ["tf_function"])
+                        add("jax", c, "star" if d == 1 else "diag", ["jax_jit"])  # JAX has no hand-written rules in this path
     if thorough:
         # ---- depth 2 on d = 3 (incl. the 3-mode interferometer): number-state input; base point, origin, all(-1)
         for seq in _sequences(3, 2, with_i3=True):
@@ -138,6 +143,61 @@ def _jobs(tier):
     return jobs
 
 
+def _canonical_alphabet(d):
+    """one mode assignment per gate: (0) / (0, 1)"""
+    return [(g, m) for g, m in L.alphabet(d) if tuple(m) == tuple(range(len(m)))]
+
+
+def _small_jobs():
+    """the QUICK tier: bounded to a few CPU-minutes including TensorFlow / JAX start-up (two workers)"""
+    jobs = []
+
+    def add(family, circuit, lat, modes):
+        jobs.append({"family": family, "circuit": circuit, "lat": lat, "modes": list(modes)})
+
+    for d in (1, 2):
+        # depth 1, every gate on every ordered mode tuple, both inputs: star lattice
+        for seq in _sequences(d, 1):
+            for inp in ("vac", "num"):
+                c = _circ(d, inp, seq)
+                add("tf_eager", c, "star", ["tf_eager"])
+                if d == 1:
+                    add("tf_function", c, "tri", ["tf_function"])
+                    if inp == "num":
+                        add("tf_eager", c, "point", ["tf_eager_pfor"])
+                if d == 1 or (inp == "num" and tuple(seq[0][1]) == tuple(range(len(seq[0][1])))):
+                    add("jax", c, "star", ["jax_jit"])
+    # depth 2: d = 1 every sequence (star: contains the points with ONE parameter at 0); d = 2 one canonical mode
+    # assignment per ordered gate pair, generic base point
+    for seq in _sequences(1, 2):
+        add("tf_eager", _circ(1, "num", seq), "star", ["tf_eager"])
+    for seq in _sequences(2, 2):
+        canon = all(tuple(m) == (((0,), (0, 1)) if i == 0 else ((1,), (1, 0)))[len(m) - 1] for i, (g, m) in enumerate(seq))
+        if canon:
+            add("tf_eager", _circ(2, "num", seq), "point", ["tf_eager"])
+    # batched states: canonical modes, base point and the all(-1) corner
+    for g, m in _canonical_alphabet(2):
+        for batch in ("prep", "apply"):
+            add("tf_eager", _circ(2, "num", [(g, m)], batch=batch), "duo", ["tf_eager"])
+    for n in (1, 2, 3):
+        pairs = L.multiplicity_pairs(n, 4)
+        jobs.append({"family": "perm", "n": n, "pairs": [[list(r), list(c)] for r, c in pairs], "tier": "small"})
+    return jobs
+
+
+def _jobs(tier):
+    """quick = the small plan; thorough = the small plan + the full depth<=2 plan on d<=2 + d=3 / depth 3 (a superset)"""
+    if tier == "quick":
+        return _small_jobs()
+    seen, out = set(), []
+    for j in _small_jobs() + _big_jobs("quick") + _big_jobs("thorough"):
+        key = repr(sorted(j.items(), key=lambda kv: kv[0]))
+        if key not in seen:
+            seen.add(key)
+            out.append(j)
+    return out
+
+
 def _npoints(job, seed=0):
     if job["family"] == "perm":
         return len(job["pairs"])
@@ -149,7 +209,7 @@ _COST = {"tf_eager": 0.009, "tf_function": 0.016, "jax": 0.002}  # rough CPU sec
 
 def _cost(job):
     if job["family"] == "perm":
-        return len(job["pairs"]) * (1.0 if job["tier"] == "thorough" else 0.15)
+        return len(job["pairs"]) * {"thorough": 1.0, "small": 0.03}.get(job["tier"], 0.15)
     c = job["circuit"]
     rows = len(L.output_names(c))
     p = len(L.param_info(c))
@@ -252,11 +312,13 @@ def run(ctx, builddir):
         "grid when 5^p <= 125, otherwise every axis-aligned line through a generic base point and through the origin + the all-equal diagonal; 'spec*' = full grid "
         "when 5^p <= 25, the axis lines + diagonal for p = 3, star otherwise; 'star' = diagonal + base point + the points 0 and -1 on every axis through the base "
         "point; 'diag' = diagonal + base point; 'tri' = base point, origin, all(-1); 'duo' = base point, all(-1); 'point' = base point. "
-        "QUICK: depth 1 on d<=2, both inputs: tf_eager spec, tf_function star, tf_eager_pfor duo (vacuum: point; thorough: tri), jax_jit spec + jax_eager/jax.grad at 3 points; "
-        "depth 2 on d<=2 (all sequences; vacuum only when the first gate changes the vacuum): tf_eager tri; tf_function point and jax_jit diag on one canonical mode "
-        "assignment per ordered gate pair (number state). THOROUGH: depth 1 on d<=3 as above (tf_function spec on d<=2); depth 2 on d<=2 all sequences, both inputs: tf_eager "
-        "spec* (number state) / star (vacuum), tf_function point, jax_jit star (number state), tf_eager_pfor point (canonical pairs); depth 2 on d=3 (2601 sequences): tf_eager duo; "
-        "depth 3 on d<=2 (10991 sequences): tf_eager point (d=1 star). "
+        "QUICK (bounded to a few CPU-minutes incl. TensorFlow/JAX start-up, two workers): depth 1 on d<=2, every gate on every ordered mode tuple, both inputs: tf_eager star; "
+        "d=1 also tf_function tri and tf_eager_pfor point; jax_jit star on d=1 and on one mode assignment per gate on d=2; depth 2: d=1 all 49 sequences tf_eager star, d=2 one canonical "
+        "mode assignment per ordered gate pair (121) tf_eager point; batched d=2 depth 1 on canonical modes tf_eager duo; perm: every multiplicity pair jitted on the generic matrix, "
+        "op-by-op / constant-multiplicity variants for n=2, total 2. "
+        "THOROUGH = QUICK + depth 1 on d<=3, both inputs: tf_eager spec, tf_function spec (d=3 star), tf_eager_pfor tri (d=3 point), jax_jit spec + jax_eager / jax.grad at 3 points; "
+        "depth 2 on d<=2, all sequences, both inputs: tf_eager spec* (number state) / star (vacuum), tf_function point, jax_jit star (number state), tf_eager_pfor point (canonical pairs); "
+        "depth 2 on d=3 (2601 sequences): tf_eager duo; depth 3 on d<=2 (10991 sequences): tf_eager point (d=1 star). "
         "Batched (d=2; thorough also d=3 and depth 2): BatchPrepare([vacuum+Displacement(params), number state]) + circuit, and BatchApply of the circuit with separate parameters per element. "
         "perm: every (rows, cols) with equal totals <= 4 on n x n, n <= 3, catalogue of 4 complex matrices, jitted (multiplicities traced / constant) and eager. "
         "evaluation = one AD Jacobian (all outputs x all parameters) at one point in one AD mode, compared entry-wise with the finite-difference oracle; "
@@ -275,16 +337,27 @@ def run(ctx, builddir):
     )
     ctx.assume("a None gradient counts as zero only if the oracle column is zero; otherwise it is a violation (sub=gradient_missing)")
     ctx.assume("perm oracle: central differences + Richardson of an independent sum-over-permutations reference (exact for polynomials of degree <= 4)")
+    ctx.assume(
+        "quick tier deliberately small (the machine budget allows ~5 CPU-minutes incl. ~1 minute of TensorFlow/JAX start-up): reduced lattices ('star' instead of the "
+        "full tensor grid), tf_function / pfor only on d=1, JAX op-by-op mode and d=3 / depth 3 / full grids only in the thorough tier, which contains the quick plan"
+    )
     ctx.assume("one long-lived connector object per AD mode and worker (the way a training loop uses the connectors; tf.function traces are reused)")
 
+    env = {"OMP_THREAD_LIMIT": "1", "TF_ENABLE_ONEDNN_OPTS": "0"}
+    if ctx.tier == "quick":
+        # two work items = two workers (one imports TensorFlow, one JAX): start-up dominates this tier
+        tf_jobs = [j for j in jobs if j["family"] in ("tf_eager", "tf_function")]
+        jx_jobs = [j for j in jobs if j["family"] in ("jax", "perm")]
+        ctx.extra["planned_jobs"] = len(jobs)
+        core.pmap(ctx, "mc.checks.c10", "work", [it for it in (tf_jobs, jx_jobs) if it], builddir, procs=2, env=env)
+        return _finish(ctx)
     fams = {"tf_eager": [], "tf_function": [], "jaxperm": []}
     for j in jobs:
         fams["jaxperm" if j["family"] in ("jax", "perm") else j["family"]].append(j)
-    target = 25.0 if ctx.tier == "quick" else 60.0
+    target = 60.0
     pools = {k: _chunks(v, target) for k, v in fams.items() if v}
     costs = {k: sum(_cost(j) for j in fams[k]) + {"tf_eager": 35, "tf_function": 60, "jaxperm": 25}[k] * 4 for k in pools}
     ctx.extra["planned_jobs"] = len(jobs)
-    env = {"OMP_THREAD_LIMIT": "1", "TF_ENABLE_ONEDNN_OPTS": "0"}
     capped = int(os.environ.get("VERIF_PROCS", "0") or 0)
     if capped:
         for k in sorted(pools):
@@ -320,6 +393,10 @@ def run(ctx, builddir):
         for k in sorted(subs):
             ctx.merge(subs[k].export())
         ctx.extra["pool_processes"] = {k: alloc[k] for k in sorted(alloc)}
+    return _finish(ctx)
+
+
+def _finish(ctx):
     _collapse_downstream(ctx)
     c = ctx.counters
     return {
@@ -335,11 +412,30 @@ def run(ctx, builddir):
     }
 
 
+FORWARD = "gradient_with_forward_mismatch"
+
+
 def _collapse_downstream(ctx):
-    """one defect, one signature: a (sub, mode, gate, param) that already fails as the LAST gate of an unbatched
-    circuit is reported once -- the qualifiers 'downstream' (gates applied after it) and 'batch' of its other
-    occurrences are dropped so that they merge into that signature.  A defect that needs a particular downstream
-    gate or a batched state keeps the qualifier."""
+    """one defect, one signature.
+
+    (1) a (sub, mode, gate, param) that already fails as the LAST gate of an unbatched circuit is reported once -- the
+    qualifiers 'downstream' (gates applied after it) and 'batch' of its other occurrences are dropped so that they merge
+    into that signature; a defect that needs a particular downstream gate or a batched state keeps the qualifier.
+    (2) when already the forward VALUES of the connector differ from NumPy the parameter whose column differs is not the
+    defect site: if the circuit contains gates whose single-gate circuit shows the forward mismatch on its own, the
+    signature names those gates instead ({sub, mode, forward_mismatch_from})."""
+    culprit = {}
+    for v in ctx.violations:
+        s, c = v.signature, (v.case or {}).get("circuit") if isinstance(v.case, dict) else None
+        if s.get("sub") == FORWARD and c and len(c["gates"]) == 1 and not c.get("batch"):
+            culprit.setdefault(s.get("mode"), set()).add(L.GATES[c["gates"][0][0]][0])
+    for v in ctx.violations:
+        s, c = v.signature, (v.case or {}).get("circuit") if isinstance(v.case, dict) else None
+        if s.get("sub") == FORWARD and c:
+            hit = sorted({L.GATES[g][0] for g, _ in c["gates"]} & culprit.get(s.get("mode"), set()))
+            if hit:
+                v.signature = {"check": "C10", "sub": FORWARD, "mode": s.get("mode"), "forward_mismatch_from": "+".join(hit)}
+
     def core_key(s):
         return (s.get("sub"), s.get("mode"), s.get("gate"), s.get("param"))
 
@@ -587,7 +683,7 @@ def _compare(ctx, circuit, mode, x, out, jl, fd, val, info, names, jac, fwd, rec
         rows = L.compare(g.reshape(-1, 1), fd[:, col : col + 1], TOL)
         if rows:
             nonfinite = not np.all(np.isfinite(g))
-            sub = "gradient_nonfinite" if nonfinite else ("gradient_with_forward_mismatch" if fwd_bad else "gradient_mismatch")
+            sub = "gradient_nonfinite" if nonfinite else (FORWARD if fwd_bad else "gradient_mismatch")
             bad_cols[col] = (sub, [(r, col) for r, _ in rows])
     if not bad_cols:
         if ctx.samples == [] and nz:
@@ -696,13 +792,14 @@ def _perm_job(ctx, job):
     n = job["n"]
     mats = L.perm_matrices(n, ctx.seed)
     thorough = job["tier"] == "thorough"
+    small = job["tier"] == "small"
     for rows, cols in job["pairs"]:
         total = sum(rows)
         for mname in sorted(mats):
-            if mname != "generic" and not thorough and total > 2:
+            if mname != "generic" and not thorough and (small or total > 2):
                 continue
             _perm_case(ctx, n, mname, rows, cols, "perm_jit")
-        if thorough or total <= 2:
+        if thorough or (total <= 2 and not small) or (small and total == 2 and n == 2):
             _perm_case(ctx, n, "generic", rows, cols, "perm_eager")
             _perm_case(ctx, n, "generic", rows, cols, "perm_jit_const")
 
